@@ -95,7 +95,15 @@ def proof_stage(plan, ev):
     if hits:
         bad.append('forbidden construct in Lean sources: ' + '; '.join(hits[:5]))
     if not res['translate_ok'] and plan.get('needs_tables'):
-        bad.append('table translator failed: ' + res['translate'][-500:])
+        # only the tables this property's theorems are about
+        try:
+            st = json.load(open(LEAN + '/RucteTables/status.json'))
+        except Exception:
+            st = dict(tables={}, problems=[res['translate'][-500:]])
+        need = plan['needs_tables'] if isinstance(plan['needs_tables'], (list, tuple)) else ['entities', 'suffixes', 'mime']
+        broken = [t for t in need if not st.get('tables', {}).get(t, False)]
+        if broken:
+            bad.append('table(s) ' + ', '.join(broken) + ' could not be extracted from the current source (the theorems are about the table extracted earlier): ' + '; '.join(st.get('problems', []))[-500:])
     res['ok'] = not bad
     res['detail'] = '\n'.join(bad)
     return res
